@@ -37,6 +37,32 @@ func H_C13_v2_fields() {
 		again, err := d.Marshal()
 		vCheck(err == nil && vBytesEq(again, raw), "v2/format-parse-identity")
 	}
+	// text form: 8-4-4-4-12 lower-case hex of the same 16 octets; parsing it (either letter case) restores the fields
+	const digits = "0123456789abcdef"
+	text, upper := make([]byte, 0, 36), make([]byte, 0, 36)
+	for i := 0; i < 16; i++ {
+		if i == 4 || i == 6 || i == 8 || i == 10 {
+			text, upper = append(text, '-'), append(upper, '-')
+		}
+		text = append(text, digits[raw[i]>>4], digits[raw[i]&15])
+		upper = append(upper, "0123456789ABCDEF"[raw[i]>>4], "0123456789ABCDEF"[raw[i]&15])
+	}
+	vCheck(vStrEq(u.String(), string(text)), "v2/text-is-hex-of-the-binary-form")
+	var t UUIDv2
+	t.LocalDomainNumber, t.Time, t.Clock, t.LocalDomain = vU32("prev.ldn"), vU64("prev.time"), vU8("prev.clock"), vU8("prev.ld")
+	vCheck(t.FromString(string(upper)) == nil, "v2/text-parses")
+	vCheck(t.LocalDomainNumber == u.LocalDomainNumber && t.Time == u.Time && t.Clock == u.Clock && t.LocalDomain == u.LocalDomain && t.NodeID == u.NodeID, "v2/format-then-parse-returns-the-fields")
+	vCheck(t.FromBytes(raw[:15]) != nil, "v2/FromBytes-wants-16-octets")
+	// accessors read and write the fields they name
+	var a UUIDv2
+	a.SetLocalDomainNumber(u.LocalDomainNumber)
+	a.SetClock(u.Clock)
+	a.SetLocalDomain(u.LocalDomain)
+	vCheck(a.SetNodeID(u.NodeID[:]) == nil && a.SetNodeID(raw[:5]) != nil, "v2/SetNodeID-wants-6-octets")
+	a.Time = u.Time
+	vCheck(a.GetLocalDomainNumber() == u.LocalDomainNumber && a.GetClock() == u.Clock && a.GetLocalDomain() == u.LocalDomain && vBytesEq(a.GetNodeID(), u.NodeID[:]), "v2/accessors")
+	viaSetters, err := a.Marshal()
+	vCheck(err == nil && vBytesEq(viaSetters, raw), "v2/fields-set-through-accessors-encode-the-same")
 	vCover("end")
 }
 
